@@ -312,25 +312,55 @@ Proof.
   - exists []. split; [constructor | reflexivity].
 Qed.
 
+(* a step of the send loop between two states outside writeEventData (queue / token may change) *)
+Lemma minv_sl_noncs nfrag s p' tk q wr :
+  minv nfrag s -> wr = writing s -> sl_in_cs (sl s) = false -> sl_in_cs p' = false ->
+  minv nfrag {| writing := wr; token := tk; sendq := q; sl := p'; fws := fws s; mwire := mwire s; owner := owner s |}.
+Proof.
+  intros [Fl Sl Fw [Bs Bf] (done & Bd & Wr)] -> C C'.
+  assert (NO : owner s <> Some TSend) by (intros O; apply Sl in O; congruence).
+  constructor; cbn [writing owner sl fws mwire].
+  - exact Fl.
+  - rewrite C'. split; [discriminate | intros O; congruence].
+  - exact Fw.
+  - split; [destruct p'; try exact I; discriminate | exact Bf].
+  - exists done. split; [exact Bd|]. rewrite Wr. unfold partial. cbn [owner sl fws].
+    destruct (owner s) as [[|j]|]; [congruence | reflexivity | reflexivity].
+Qed.
+
+(* a step of a fast-path writer between two states outside writeEventData *)
+Lemma minv_fw_noncs nfrag s i w w' tk q wr :
+  minv nfrag s -> wr = writing s -> nth_error (fws s) i = Some w -> fw_in_cs w = false -> fw_in_cs w' = false ->
+  minv nfrag {| writing := wr; token := tk; sendq := q; sl := sl s; fws := upd (fws s) i w'; mwire := mwire s;
+                owner := owner s |}.
+Proof.
+  intros [Fl Sl Fw [Bs Bf] (done & Bd & Wr)] -> N C C'.
+  assert (IL : (i < length (fws s))%nat) by (apply nth_error_Some; congruence).
+  assert (NO : owner s <> Some (TFast i)) by (intros O; apply (Fw i w N) in O; congruence).
+  constructor; cbn [writing owner sl fws mwire].
+  - exact Fl.
+  - exact Sl.
+  - intros j x H. destruct (Nat.eq_dec i j) as [<-|NE].
+    + rewrite nth_error_upd_same in H by exact IL. inversion H; subst. rewrite C'. split; [discriminate | congruence].
+    + rewrite nth_error_upd_other in H by exact NE. now apply Fw.
+  - split; [exact Bs|]. intros j x H. destruct (Nat.eq_dec i j) as [<-|NE].
+    + rewrite nth_error_upd_same in H by exact IL. inversion H; subst. unfold fw_bound. unfold fw_in_cs in C'.
+      destruct (f_pc x); try exact I. discriminate.
+    + rewrite nth_error_upd_other in H by exact NE. eapply Bf; eauto.
+  - exists done. split; [exact Bd|]. rewrite Wr. unfold partial. cbn [owner sl fws].
+    destruct (owner s) as [[|j]|]; try reflexivity.
+    rewrite nth_error_upd_other by congruence. reflexivity.
+Qed.
+
 Lemma minv_step nfrag s t : minv nfrag s -> minv nfrag (m_step nfrag s t).
 Proof.
-  intros [Fl Sl Fw [Bs Bf] (done & Bd & Wr)]. destruct t as [|i]; cbn [m_step].
+  intros Inv. pose proof Inv as [Fl Sl Fw [Bs Bf] (done & Bd & Wr)]. destruct t as [|i]; cbn [m_step].
   - (* the send loop *)
     unfold step_sl. destruct (sl s) as [|ev|ev|ev k] eqn:PC.
-    + destruct (sendq s) as [|ev r]; [constructor; rewrite ?PC; eauto|].
-      assert (NO : owner s <> Some TSend) by (intros O; apply Sl in O; discriminate).
-      constructor; cbn [writing owner sl fws mwire]; eauto.
-      * split; [discriminate | intros O; congruence].
-      * split; [exact I | exact Bf].
-      * exists done. split; [exact Bd|]. rewrite Wr. unfold partial. cbn [owner sl fws].
-        destruct (owner s) as [[|j]|]; [congruence | reflexivity | reflexivity].
-    + assert (NO : owner s <> Some TSend) by (intros O; apply Sl in O; discriminate).
-      destruct (writing s) eqn:Wg.
-      * constructor; cbn [writing owner sl fws mwire]; eauto.
-        -- split; [discriminate | intros O; congruence].
-        -- split; [exact I | exact Bf].
-        -- exists done. split; [exact Bd|]. rewrite Wr. unfold partial. cbn [owner sl fws].
-           destruct (owner s) as [[|j]|]; [congruence | reflexivity | reflexivity].
+    + destruct (sendq s) as [|ev r]; [exact Inv|].
+      apply minv_sl_noncs; [exact Inv | congruence | now rewrite PC | reflexivity].
+    + destruct (writing s) eqn:Wg.
+      * apply minv_sl_noncs; [exact Inv | congruence | now rewrite PC | reflexivity].
       * assert (ON : owner s = None) by (destruct (owner s); [discriminate | reflexivity]).
         constructor; cbn [writing owner sl fws mwire].
         -- reflexivity.
@@ -339,20 +369,17 @@ Proof.
         -- split; [cbn; lia | exact Bf].
         -- exists done. split; [exact Bd|]. rewrite Wr. unfold partial. rewrite ON. cbn [owner sl part_sl block seq map].
            reflexivity.
-    + assert (NO : owner s <> Some TSend) by (intros O; apply Sl in O; discriminate).
-      destruct (token s); [|constructor; rewrite ?PC; eauto].
-      constructor; cbn [writing owner sl fws mwire]; eauto.
-      * split; [discriminate | intros O; congruence].
-      * split; [exact I | exact Bf].
-      * exists done. split; [exact Bd|]. rewrite Wr. unfold partial. cbn [owner sl fws].
-        destruct (owner s) as [[|j]|]; [congruence | reflexivity | reflexivity].
+    + destruct (token s); [|exact Inv].
+      apply minv_sl_noncs; [exact Inv | congruence | now rewrite PC | reflexivity].
     + assert (OS : owner s = Some TSend) by (apply Sl; reflexivity).
       destruct (k <? nfrag ev)%nat eqn:K.
       * apply Nat.ltb_lt in K.
-        constructor; cbn [writing owner sl fws mwire]; eauto.
+        constructor; cbn [writing owner sl fws mwire].
+        -- exact Fl.
         -- rewrite OS. split; reflexivity.
+        -- exact Fw.
         -- split; [cbn; lia | exact Bf].
-        -- exists done. split; [exact Bd|]. rewrite Wr. unfold partial. rewrite OS. cbn [owner sl part_sl].
+        -- exists done. split; [exact Bd|]. rewrite Wr. unfold partial. rewrite OS. cbn [owner sl].
            rewrite PC. cbn [part_sl]. rewrite block_snoc. now rewrite app_assoc.
       * apply Nat.ltb_ge in K. cbn in Bs. assert (k = nfrag ev) by lia. subst k.
         constructor; cbn [writing owner sl fws mwire].
@@ -363,22 +390,11 @@ Proof.
         -- exists (done ++ block ev (nfrag ev)). split; [constructor; exact Bd|].
            rewrite Wr. unfold partial. rewrite OS, PC. cbn [owner part_sl]. now rewrite app_nil_r.
   - (* a fast-path writer *)
-    unfold step_fw. destruct (nth_error (fws s) i) as [w|] eqn:N; [|constructor; eauto].
+    unfold step_fw. destruct (nth_error (fws s) i) as [w|] eqn:N; [|exact Inv].
     assert (IL : (i < length (fws s))%nat) by (apply nth_error_Some; congruence).
     destruct (f_pc w) as [|ev k|] eqn:PC.
-    + assert (NO : owner s <> Some (TFast i)).
-      { intros O. apply (Fw i w N) in O. unfold fw_in_cs in O. rewrite PC in O. discriminate. }
-      destruct (writing s) eqn:Wg.
-      * constructor; cbn [writing owner sl fws mwire]; eauto.
-        -- intros j w' H. destruct (Nat.eq_dec i j) as [<-|NE].
-           ++ rewrite nth_error_upd_same in H by exact IL. inversion H; subst. cbn. split; [discriminate | congruence].
-           ++ rewrite nth_error_upd_other in H by exact NE. now apply Fw.
-        -- split; [exact Bs|]. intros j w' H. destruct (Nat.eq_dec i j) as [<-|NE].
-           ++ rewrite nth_error_upd_same in H by exact IL. inversion H; subst. exact I.
-           ++ rewrite nth_error_upd_other in H by exact NE. eapply Bf; eauto.
-        -- exists done. split; [exact Bd|]. rewrite Wr. unfold partial. cbn [owner sl fws].
-           destruct (owner s) as [[|j]|]; try reflexivity.
-           rewrite nth_error_upd_other by congruence. reflexivity.
+    + destruct (writing s) eqn:Wg.
+      * eapply minv_fw_noncs; [exact Inv | congruence | exact N | unfold fw_in_cs; now rewrite PC | reflexivity].
       * assert (ON : owner s = None) by (destruct (owner s); [discriminate | reflexivity]).
         constructor; cbn [writing owner sl fws mwire].
         -- reflexivity.
@@ -397,7 +413,9 @@ Proof.
       pose proof (Bf i w N) as Bk. unfold fw_bound in Bk. rewrite PC in Bk.
       destruct (k <? nfrag ev)%nat eqn:K.
       * apply Nat.ltb_lt in K.
-        constructor; cbn [writing owner sl fws mwire]; eauto.
+        constructor; cbn [writing owner sl fws mwire].
+        -- exact Fl.
+        -- exact Sl.
         -- intros j w' H. destruct (Nat.eq_dec i j) as [<-|NE].
            ++ rewrite nth_error_upd_same in H by exact IL. inversion H; subst. cbn. rewrite OS. split; reflexivity.
            ++ rewrite nth_error_upd_other in H by exact NE. now apply Fw.
@@ -420,18 +438,7 @@ Proof.
            ++ rewrite nth_error_upd_other in H by exact NE. eapply Bf; eauto.
         -- exists (done ++ block ev (nfrag ev)). split; [constructor; exact Bd|].
            rewrite Wr. unfold partial. rewrite OS, N. unfold part_fw. rewrite PC. cbn [owner]. now rewrite app_nil_r.
-    + assert (NO : owner s <> Some (TFast i)).
-      { intros O. apply (Fw i w N) in O. unfold fw_in_cs in O. rewrite PC in O. discriminate. }
-      constructor; cbn [writing owner sl fws mwire]; eauto.
-      * intros j w' H. destruct (Nat.eq_dec i j) as [<-|NE].
-        -- rewrite nth_error_upd_same in H by exact IL. inversion H; subst. cbn. split; [discriminate | congruence].
-        -- rewrite nth_error_upd_other in H by exact NE. now apply Fw.
-      * split; [exact Bs|]. intros j w' H. destruct (Nat.eq_dec i j) as [<-|NE].
-        -- rewrite nth_error_upd_same in H by exact IL. inversion H; subst. exact I.
-        -- rewrite nth_error_upd_other in H by exact NE. eapply Bf; eauto.
-      * exists done. split; [exact Bd|]. rewrite Wr. unfold partial. cbn [owner sl fws].
-        destruct (owner s) as [[|j]|]; try reflexivity.
-        rewrite nth_error_upd_other by congruence. reflexivity.
+    + eapply minv_fw_noncs; [exact Inv | congruence | exact N | unfold fw_in_cs; now rewrite PC | reflexivity].
 Qed.
 
 Theorem mutex_inv nfrag nfw sched : minv nfrag (m_run nfrag sched (m_init nfw)).
@@ -453,9 +460,10 @@ Proof.
   set (s := m_run nfrag sched (m_init nfw)) in *. repeat split.
   - intros i j wi wj Hi Hj Ci Cj. apply (Fw i wi Hi) in Ci. apply (Fw j wj Hj) in Cj. congruence.
   - intros i wi Hi Ci. apply (Fw i wi Hi) in Ci. destruct (sl_in_cs (sl s)) eqn:X; [|reflexivity].
-    apply Sl in X. congruence.
-  - destruct (sl_in_cs (sl s)) eqn:X; [|reflexivity]. apply Sl in X. rewrite X in Fl. congruence.
-  - intros i wi Hi. destruct (fw_in_cs wi) eqn:X; [|reflexivity]. apply (Fw i wi Hi) in X. rewrite X in Fl. congruence.
+    pose proof (proj1 Sl eq_refl) as O. congruence.
+  - destruct (sl_in_cs (sl s)) eqn:X; [|reflexivity]. pose proof (proj1 Sl eq_refl) as O. rewrite O in Fl. congruence.
+  - intros i wi Hi. pose proof (Fw i wi Hi) as F. destruct (fw_in_cs wi) eqn:X; [|reflexivity].
+    pose proof (proj1 F eq_refl) as O. rewrite O in Fl. congruence.
 Qed.
 
 (* the wire is a sequence of whole events followed by the pieces written so far by the one thread inside
